@@ -3,6 +3,9 @@ From DF Require Import Prelude Constants_gen Region Mesh Select QLemmas ListLemm
 Open Scope Q_scope.
 
 (* ---------- small arithmetic helpers ---------- *)
+Lemma inject_Z_minus (a b : Z) : inject_Z (a - b) = inject_Z a - inject_Z b.
+Proof. unfold Z.sub, Qminus. rewrite inject_Z_plus, inject_Z_opp. reflexivity. Qed.
+
 Lemma Qfloor_shift (x : Q) (z : Z) : Qfloor (x - inject_Z z) = (Qfloor x - z)%Z.
 Proof.
   destruct (Qfloor_bounds x) as [A B].
